@@ -91,3 +91,14 @@ pub open spec fn all_gt1(s: Seq<Uint>) -> bool { forall|i: int| 0 <= i < s.len()
 pub assume_specification<const N: usize> [crate::arith_gcd::big_gcd] (n: &BUint<N>, p: &BUint<N>) -> (r: BUint<N>)
     ensures uv(r) == gcd_spec(uv(*n), uv(*p));
 } // verus!
+
+verus! {
+/// R4 outlining of `Uint::ONE << s` (associated constants of foreign types are not supported). Trusted contract.
+#[verifier::external_body]
+fn ol_uint_one_shl(s: u32) -> (r: Uint)
+    requires s < 1024
+    ensures uv(r) == vstd::arithmetic::power2::pow2(s as nat)
+{
+    Uint::ONE << s
+}
+} // verus!
